@@ -19,8 +19,9 @@ def mismatches(txt):
     return out
 
 
-def crit_class(lb, q):
-    """Input class of a query relative to the configuration (for the failure signature)."""
+def crit_class(lb, q, width=True):
+    """Input class of a query relative to the configuration (for the failure signature).
+    width: name selectors of >= 4 keys as their own class (slice growth / deep trie effects show only there)."""
     if q.get("k") != "map":
         return "no-criteria"
     keys = set(q.get("c", {}).keys())
@@ -29,7 +30,7 @@ def crit_class(lb, q):
         return "empty-criteria"
     if keys in sels:
         hit = any(all(h.get(k) == v for k, v in q["c"].items()) for h in lb["hosts"])
-        wide = "wide-selector-%d-keys:" % len(keys) if len(keys) >= 4 else "selector-keys:"
+        wide = "wide-selector-%d-keys:" % len(keys) if (width and len(keys) >= 4) else "selector-keys:"
         return wide + ("hosts-match" if hit else "no-host-matches")
     for s in sels:
         if keys < s:
@@ -206,7 +207,7 @@ def replay(ctx, q, rng, par, universes):
                 small = [c for c in cfgs if nhosts(c) <= 1 or (nhosts(c) == 2 and not nokeys(c))]
                 mid = [c for c in cfgs if nhosts(c) == 2 and nokeys(c)]
                 big = [c for c in cfgs if nhosts(c) > 2]
-                pick = small + rng.sample(mid, min(400, len(mid))) + rng.sample(big, min(700, len(big)))
+                pick = small + rng.sample(mid, min(250, len(mid))) + rng.sample(big, min(500, len(big)))
                 sampled = True
             elif cc == "Subset_thorough_cases.cfg":
                 # 4 hosts: position sets that differ only in the middle (index cache, sparse sets)
@@ -215,9 +216,9 @@ def replay(ctx, q, rng, par, universes):
                 pick = rng.sample(coll, min(150, len(coll))) + rng.sample(four, min(150, len(four)))
                 ctx.cov["cache_collision_configs"] = len(coll)
             elif cc == "Subset_wide_cases.cfg":
-                pick = wide_pick(cfgs, rng, 250, 150)
+                pick = wide_pick(cfgs, rng, 220, 100)
             else:
-                pick = rng.sample(cfgs, min(500, len(cfgs)))
+                pick = rng.sample(cfgs, min(400, len(cfgs)))
         elif cc == "Subset_wide_thorough_cases.cfg":
             pick = wide_pick(cfgs, rng, 1500, 1000)
             sampled = True
@@ -270,7 +271,8 @@ def replay(ctx, q, rng, par, universes):
             e = evs[line - 1]
             lb = evs[lb_at[line] - 1]
             if e["ev"] == "q":
-                cls = crit_class(lb, e)
+                # the all-unhealthy fall-through is independent of the selector width: one class for it
+                cls = crit_class(lb, e, width=not kind.startswith("subset-all-unhealthy"))
             elif e["ev"] == "lb":
                 cls = "selector-without-keys" if any(len(x) == 0 for x in e["sel"]) else "build"
             else:
